@@ -190,7 +190,7 @@ pub fn dedup_contract(
             return Err(Failure::new(format!(
                 "generation still fails with DuplicateTypePath({p}) after ensure_unique_type_paths"
             ))
-            .sig("dedup:renamed-path-collides")
+            .sig(if collision_prone(before) { "dedup:renamed-path-collides" } else { "dedup:insufficient" })
             .with(json!({"case": decoded(), "dedup_registry": registry_json(&after)})));
         }
         GenResult::Panic(p) => {
